@@ -15,7 +15,7 @@ FOCUS = {'ready': 14, 'ack': 12, 'scan': 6, 'exit': 5, 'stale_ready': 1.5, 'stal
 
 
 def run(res):
-    res.proof_step('Props/C01.v', extra_targets=['Model/Pool.vo'], kernels_needed=['G_pool_shape'])
+    res.proof_step('Props/C01.v', extra_targets=['Model/Pool.vo'], kernels_needed=['G_pool_shape', 'G_pool_pins'])
     n = 150 if res.tier == 'quick' else 6000
     if res.broken:
         n = max(n, 1500)      # failing-input search on the implementation
